@@ -104,6 +104,11 @@ def run(ctx):
             pairs.append({"cases": [ca, cb], "variant": {"unique": True, "rot": bool(i % 2)}, "seed": ctx.seed})
     if quick:
         pairs = pairs[::3]
+    # ... and two systems with the SAME coupling operator but different bath correlations (the degeneracy bookkeeping
+    # depends on the coupling operator alone, the influence functions do not)
+    same = [{"cases": [ca, ca], "variant": {"unique": True, "rot": False}, "seed": ctx.seed}
+            for i, ca in enumerate(rows) if i % (9 if quick else 3) == 0]
+    pairs += same
     for job, res_ in zip(pairs, core.pmap(eng.run_mf_pair, pairs, chunksize=4)):
         cid = {"mf_pair": [job["cases"][0]["o"], job["cases"][1]["o"]], "K": job["cases"][0]["K"], "A": job["cases"][0]["A"],
                "variant": job["variant"]}
